@@ -53,12 +53,29 @@ def fmt_atom(k):
     return str(k)
 
 
+def const_set(a, oldkeys=()):
+    """the finite set of constants a form can take ('old' = the unchanged entry value of a watched cell), or None"""
+    if set(a) <= {1}:
+        return frozenset([a.get(1, 0)])
+    if len(a) == 1:
+        (k, c), = a.items()
+        if isinstance(k, tuple) and k[0] == 'M' and k[1] in oldkeys and c == 1:
+            return frozenset(['old'])
+    if len(a) == 1:
+        (k, c), = a.items()
+        if isinstance(k, tuple) and k[0] == 'set' and c == 1:
+            return k[1]
+    return None
+
+
 class Lin:
     def __init__(self, u, f, groups=()):
         self.u, self.f = u, f
         self.IN = {}
         self.rets = []
-        self.groups = list(groups)      # [(key of next, key of avail, key of total or None)]: counters that are joined relationally
+        self.groups = list(groups)
+        self.watch = None      # set of cell keys whose stored values are recorded in self.watched
+        self.watched = {}      # [(key of next, key of avail, key of total or None)]: counters that are joined relationally
 
     def initial(self):
         return {'r': {}, 'm': {}}
@@ -159,7 +176,11 @@ class Lin:
             return
         elif mn.startswith('cmov') and len(ops) == 2:
             a, b = self.val(st, ops[0], i), self.val(st, ops[1], i)
-            res = a if canon(a) == canon(b) else fresh
+            if canon(a) == canon(b):
+                res = a
+            else:
+                sa, sb = const_set(a, self.watch or ()), const_set(b, self.watch or ())
+                res = {('set', frozenset(sa | sb)): 1} if sa is not None and sb is not None and len(sa | sb) <= 6 else fresh
         else:
             res = fresh
         if len(res) > 12:
@@ -168,6 +189,8 @@ class Lin:
             a = self.addr(st, ops[0])
             if a is not None and self.cell_ok(a):
                 st['m'][canon(a)] = res
+                if self.watch is not None and canon(a) in self.watch:
+                    self.watched.setdefault(canon(a), []).append((i, res))
             return
         st['r'][g[0]] = res
         # implicit destinations
@@ -324,3 +347,74 @@ def check(rep, side, floor, off, pattern, icf=None):
     if n == 0:
         raise AnalysisBroken('asmlin: no kernel matches %s' % pattern)
     R.notes.append('%d kernels' % n)
+
+
+def check_state_siblings(rep, suffix, mod, families, field_off, entry_states, floor):
+    """families: {C sibling: regex of asm siblings}.  The constants each implementation may store into the state field."""
+    import asmdb, irrules
+    R = rep.rule('R-STATE-SIBLINGS-' + suffix, 'implementations that share a dispatch slot agree on the state machine: every constant an asm kernel may store into the state field (immediates, also through cmov) is one the '
+                 'portable sibling stores, or the state the kernel is entered in; and every state the portable sibling can produce can be produced by each asm sibling', floor=floor, unit='asm kernels')
+    units = asmdb.units('default')
+
+    def cset(f, v, depth=0):
+        if re.match(r'^-?\d+$', v):
+            return {int(v)}
+        d = f.defs.get(irrules._strip(f, v))
+        if d is None or depth > 6:
+            return None
+        if d.op == 'select':
+            a, b = cset(f, d.ops[1], depth + 1), cset(f, d.ops[2], depth + 1)
+            return None if a is None or b is None else a | b
+        if d.op == 'phi':
+            out = set()
+            for x, _ in d.extra['incoming']:
+                c = cset(f, x, depth + 1)
+                if c is None:
+                    return None
+                out |= c
+            return out
+        return None
+    for base, pat in sorted(families.items()):
+        f = mod.funcs.get(base)
+        if f is None:
+            raise AnalysisBroken(base + ' not found in the linked IR')
+        P = irrules.prov(mod, f)
+        bset = set()
+        for i in f.all_insns():
+            if i.op == 'store' and P.atoms(i.ops[1]) == {('param', 0, field_off)}:
+                c = cset(f, i.ops[0])
+                if c is None:
+                    raise AnalysisBroken('%s stores a non-constant state' % base)
+                bset |= c
+        if not bset:
+            raise AnalysisBroken('%s never stores the state field' % base)
+        k = canon({'rdi@entry': 1, 1: field_off})
+        n = 0
+        for un, u in sorted(units.items()):
+            for fn, fa in sorted(u.funcs.items()):
+                if not re.match(pat, fn):
+                    continue
+                n += 1
+                R.instance()
+                L = Lin(u, fa)
+                L.watch = {k}
+                L.run()
+                aset, unknown = set(), []
+                for i, v in L.watched.get(k, []):
+                    cs = const_set(v, {k})
+                    if cs is None:
+                        unknown.append(i)
+                    else:
+                        aset |= set(x for x in cs if x != 'old')
+                allowed = bset | set(entry_states.get(base, ()))
+                if unknown:
+                    # a store of a value we cannot enumerate: acceptable only if it is the reloaded old state; report otherwise
+                    R.fail('%s: %s' % (un, u.where(unknown[0], fa)), '%s stores a state value that is not a known constant' % fn, key='R-STATE-SIBLINGS|%s|unknown' % fn)
+                    continue
+                extra, missing = aset - allowed, bset - aset
+                R.check(not extra and not missing, '%s:%s' % (un, fn), '%s may store states %s; the portable sibling %s stores %s%s: %s' %
+                        (fn, sorted(aset), base, sorted(bset), (' (entered in state %s)' % sorted(entry_states[base])) if base in entry_states else '',
+                         ('states %s are never produced by the portable version' % sorted(extra)) if extra else ('it can never produce %s' % sorted(missing))),
+                        key='R-STATE-SIBLINGS|%s' % fn, sample='%s: %s vs %s %s' % (fn, sorted(aset), base, sorted(bset)))
+        if n == 0:
+            raise AnalysisBroken('no asm sibling of %s' % base)
